@@ -191,7 +191,18 @@ def build_schedmc(race=False):
     return go_build(op, "./zzverif/schedmc/main", os.path.join(SCRATCH, "bin", "schedmc"))
 
 
-ENGINE_BUILDERS = {"seqmc": build_seqmc, "schedmc": build_schedmc}
+def build_langmc():
+    ov = {}
+    add_tree(ov, os.path.join(VERIF, "langmc", "main"), os.path.join(REPO, "zzverif", "langmc", "main"))
+    add_tree(ov, os.path.join(VERIF, "langmc", "vharness"), os.path.join(REPO, "internal", "lang", "zz_vharness"))
+    add_tree(ov, os.path.join(VERIF, "seqmc", "vlib"), os.path.join(REPO, "zzverif", "seqmc", "vlib"))
+    for sub in ("tree", "refcodec"):
+        add_tree(ov, os.path.join(VERIF, "seqmc", sub), os.path.join(REPO, "zzverif", "seqmc", sub))
+    op = write_overlay("langmc", ov)
+    return go_build(op, "./zzverif/langmc/main", os.path.join(SCRATCH, "bin", "langmc"))
+
+
+ENGINE_BUILDERS = {"seqmc": build_seqmc, "schedmc": build_schedmc, "langmc": build_langmc}
 
 # --------------------------------------------------------------------------------------------------
 # known findings
